@@ -45,10 +45,11 @@ extern int v_nviol;
 uint64_t v_hash(const void *p, size_t n, uint64_t seed);
 static inline uint64_t v_mix(uint64_t a, uint64_t b)
 {
-	a ^= b + 0x9e3779b97f4a7c15ull + (a << 6) + (a >> 2);
-	a *= 0xff51afd7ed558ccdull;
-	a ^= a >> 33;
-	return a;
+	uint64_t x = (a + 0x9e3779b97f4a7c15ull) * 0xff51afd7ed558ccdull ^ (b + 0x632be59bd9b4e019ull) * 0xc4ceb9fe1a85ec53ull;
+	x ^= x >> 31;
+	x *= 0xd6e8feb86659fd93ull;
+	x ^= x >> 29;
+	return x;
 }
 
 /* ---------- guard arena ---------- */
